@@ -3,7 +3,7 @@
    result (the camera's frame call failed), DAppend with ok = false (the append returned a non-running state), a failing
    device start. *)
 From Coq Require Import List Bool Arith NArith.
-From Pipe Require Import PipeModel PipeInvDefs PipeStep PipeSysProps PipeExamples.
+From Pipe Require Import PipeModel PipeInvDefs PipeStep PipeSysProps PipeLive PipeLiveSys PipeExamples.
 Import ListNotations.
 
 (* an append is only ever issued to a running storage that has not failed since it was started; a failing append leaves
@@ -49,6 +49,24 @@ Theorem C09_next_run_correct : forall y y' i, reachable y -> step y (EvG GStopRe
   stored s = delivered s /\ N.of_nat (length (delivered s)) = goal s.
 Proof. exact complete_after_stop. Qed.
 Print Assumptions C09_next_run_correct.
+
+(* ---- the wind-down after a storage failure terminates: the sink's error path tells the source to stop and refuses writes
+   (CbStopSource, Accept false); once the client is in acquire_stop / acquire_abort the stream is in phase Ph of PipeLive.v and
+   the progress certificate of C07 applies: every worker event decreases the measure except polls, and some decreasing worker
+   event is enabled while a worker is alive *)
+Theorem C09_winddown_progress : forall y i a e s',
+  reachable y -> let s := stream_of y i in
+  Ph s -> step_stream s a e = Some s' -> a <> ACli -> measure s' < measure s \/ poll_event s a e = true.
+Proof. exact winddown_progress. Qed.
+Print Assumptions C09_winddown_progress.
+
+Theorem C09_winddown_no_deadlock : forall y i,
+  reachable y -> let s := stream_of y i in
+  Ph s -> workers_idle s = false ->
+  exists a e s', a <> ACli /\ step_stream s a e = Some s' /\ measure s' < measure s.
+Proof. exact winddown_no_deadlock. Qed.
+Print Assumptions C09_winddown_no_deadlock.
+
 
 Example C09_example_fault_then_clean_run :
   match after tr_stofail at_failing_append, after tr_stofail before_first_stop_f, after tr_stofail before_second_stop_f with
